@@ -1,7 +1,7 @@
 """C11 — spec-invalid single-field deviations are rejected, never silently repaired."""
-from vlib import classlemmas, evidence, leafrt, runner, xh
+from vlib import classlemmas, ctxlemmas, evidence, leafrt, runner, xh
 
-PREAMBLE = ["from vlib import leafrt as R", "R.field_cases()", "R.annot_cases()"]
+PREAMBLE = ["from vlib import leafrt as R", "R.field_cases()", "R.annot_cases()"] + ctxlemmas.PREAMBLE[1:]
 
 
 def lemmas(tier):
@@ -24,6 +24,13 @@ def lemmas(tier):
             out.append(xh.Lemma("cn_%s" % c.id, [("k", "int")], ["return R.field_rejects_near(%r, k)" % c.id], pre=["0 <= k < %d" % n], meta=dict(meta, edit="closed enum value replaced by a near miss of a declared value", near=True)))
         elif c.kind == "enum_int" and c.direct and not c.detail["open"]:
             out.append(xh.Lemma("c_%s" % c.id, [("x", "int")], ["return R.conv_accepts(%r, x)[0] == False" % c.id], pre=["x not in %r" % (tuple(c.detail["values"]),)], meta=dict(meta, edit="closed enum value outside")))
+            # JSON booleans: Python's False == 0 and True == 1, so only a boolean that equals no declared value is demanded to fail
+            outside = [b for b in (False, True) if int(b) not in c.detail["values"]]
+            if outside:
+                out.append(xh.Lemma("cb_%s" % c.id, [("k", "int")], ["return R.conv_accepts(%r, %r[k])[0] == False" % (c.id, outside)], pre=["0 <= k < %d" % len(outside)], meta=dict(meta, edit="closed enum value replaced by a boolean equal to no declared value", bools=outside)))
+    for l in ctxlemmas.lemmas(tier):
+        l.meta["edit"] = l.meta["what"]
+        out.append(l)
     return out
 
 
@@ -52,8 +59,12 @@ def check(tier):
         if r.verdict == "inconclusive":
             chk.inconc("%s: %s" % (site, r.message[:160]))
         elif r.verdict == "refuted":
+            if ctxlemmas.replay(chk, l, r):
+                continue
             c = fc[l.meta["case"]]
             v = r.args.get("x", r.args.get("s", r.args.get("f")))
+            if l.meta.get("bools"):
+                v = l.meta["bools"][r.args["k"]]
             if l.meta.get("special"):
                 v = leafrt.special_floats(c.id)[r.args["k"]]
             if l.meta.get("near"):
@@ -71,7 +82,7 @@ def check(tier):
     chk.ev.coverage["functions_encoded"] = [{"fn": "structure_<Class> (cattrs-generated) for %d classes (Q-req, z3)" % len(cases)}, {"fn": "structure_<Class> + attrs __init__ + validators / Enum.__call__ / in_ validator for %d fields (CrossHair)" % len(ls)}]
     chk.ev.coverage["bounds"] = {"integers": "unbounded", "floats": "every finite real (z3 Real; superset of the doubles, stub 6) plus nan / inf / -inf as CrossHair forks them, plus %d concrete special values (inf, -inf, nan, +-DBL_MAX, boundary +-0.5/+-1) chosen by symbolic index" % len(leafrt.SPECIAL_FLOATS), "strings": "len <= %d" % (24 if tier == "thorough" else 12), "surrounding value": "minimal valid template of the class (other members concrete)", "presence vectors (edit a)": "all 2^n"}
     chk.ev.coverage["outside_bounds"] = ["in-range non-integral floats in integer positions (not one of the four edits)", "or-typed properties that contain a closed enumeration or integer alternative (e.g. ServerCapabilities.textDocumentSync): the four edits are read as applying to directly typed properties", "strings longer than the bound"]
-    chk.ev.coverage["rule"] = "one XH lemma per eligible (class, property, edit) with the replaced value symbolic; one z3 query per class for removal of any required key; non-trivial = twin reached"
+    chk.ev.coverage["rule"] = "one XH lemma per eligible (class, property, edit) with the replaced value symbolic; the same edits through every union-typed parent position one to three references up (vlib/ctxlemmas.py); one z3 query per class for removal of any required key; non-trivial = twin reached"
     chk.ev.coverage["explanation"] = (
         "Edit (a): the generated structure function of every class is interpreted over z3 booleans (key presence) and z3 is asked for a presence vector that lacks a required, "
         "non-special key and does not raise. Edits (b)-(d): CrossHair runs the real generated function, the attrs constructor, the range validators, attrs' in_ validator and Enum.__call__ "
